@@ -341,6 +341,30 @@ class Interp:
             if s.finalbody:
                 self.exec_block(s.finalbody)
 
+    def st_With(self, s):
+        """`with EXPR as NAME:` for objects of external contracts: leaving the block (normally or
+        not) performs the object's `close`"""
+        vals = []
+        for item in s.items:
+            v = self.eval(item.context_expr)
+            if item.optional_vars is not None:
+                self.assign(item.optional_vars, v)
+            vals.append(v)
+
+        def leave():
+            for v in reversed(vals):
+                if isinstance(v, VRec) and v.cls.startswith('ext::'):
+                    self.ghost.setdefault('ext_trace', []).append(
+                        {'name': 'close', 'args': [], 'kwargs': {}, 'raised': False, 'via': 'with'})
+                else:
+                    raise Unsupported('with-statement on %r' % (v,))
+        try:
+            self.exec_block(s.body)
+        except (Raised, Returned, BreakLoop, ContinueLoop):
+            leave()
+            raise
+        leave()
+
     def exc_matches(self, exc, type_node):
         if type_node is None:
             return True
